@@ -42,6 +42,7 @@ LEVEL = {
     "technique": "static analysis: double-checked-locking and atomic-publish shape rules on the CFG",
 }
 LEVEL["decided"] += " (R12.8) the descriptor decides 'looked up on the class' by `instance is None` only."
+LEVEL["decided"] += ' (R12.9) the supplied lock is used whatever its truth value.'
 
 PLACEHOLDER = "functools._FutureCachedPropertyValue"
 
